@@ -21,7 +21,7 @@ var tokMeta = []string{"x", "v", "-", "--", "-a", "--aa", "-a=true", "-b", "-ab"
 	// a value made of characters that matter elsewhere (underscore, equals sign, dash), in every spelling
 	"w_=-z", "-ow_=-z", "--out=w_=-z"}
 var tokMetaSm = []string{"x", "--", "-a", "--aa", "-b", "-ab", "-ba", "-o", "-ov", "--out=v", "-ao"}
-var tokTail = []string{"x", "-a", "-z", "--zz", "--", "-", "-o", "-o="}
+var tokTail = []string{"x", "-a", "-z", "--zz", "--", "-", "-o", "-o=", "--a"}
 
 type outcomeTable struct {
 	d    *ref.Decl
